@@ -460,7 +460,7 @@ def fake_socket_module():
 
 class SimNet:
     """Simulated network.  `script` is a list of connect outcomes consumed in
-    order: ("refuse", latency) | ("unreachable", latency) | ("accept", latency
+    order: ("refuse" | "unreachable" | "timeout" | "gaierror", latency) | ("accept", latency
     [, fail_write_at]).  When exhausted, `default` applies."""
 
     def __init__(self, log=None):
@@ -490,6 +490,11 @@ class SimNet:
             raise ConnectionRefusedError(111, "Connect call failed (simulated)")
         if kind == "unreachable":
             raise OSError(113, "No route to host (simulated)")
+        if kind == "timeout":
+            raise TimeoutError(110, "Connection timed out (simulated)")
+        if kind == "gaierror":
+            import socket as _socket
+            raise _socket.gaierror(-2, "Name or service not known (simulated)")
         conn = Conn(self, host, port)
         self.conns.append(conn)
         proto = protocol_factory()
